@@ -13,6 +13,7 @@ type Hit2 struct {
 	N    V2
 	Tang float64
 	Feat float64
+	Rad  float64 // see Hit.Rad
 	Seg  int
 }
 
@@ -60,7 +61,7 @@ func (s *Circle) RayHits(o, d V2) []Hit2 {
 		if sd > 0 {
 			p := o.Add(dh.Scale(sd))
 			n := p.Sub(s.C).Unit()
-			res = append(res, Hit2{T: sd / dn, P: p, N: n, Tang: math.Abs(n.Dot(dh)), Feat: math.Inf(1)})
+			res = append(res, Hit2{T: sd / dn, P: p, N: n, Tang: math.Abs(n.Dot(dh)), Feat: math.Inf(1), Rad: s.R})
 		}
 	}
 	return res
@@ -109,7 +110,7 @@ func (b *Rect2) RayHits(o, d V2) []Hit2 {
 				continue
 			}
 			n[i] = float64(2*side - 1)
-			res = append(res, Hit2{T: s / dn, P: V2{p[0], p[1]}, N: V2{n[0], n[1]}, Tang: math.Abs(da[i]), Feat: math.Max(0, m)})
+			res = append(res, Hit2{T: s / dn, P: V2{p[0], p[1]}, N: V2{n[0], n[1]}, Tang: math.Abs(da[i]), Feat: math.Max(0, m), Rad: math.Inf(1)})
 		}
 	}
 	return res
@@ -149,7 +150,7 @@ func (c *Capsule2) RayHits(o, d V2) []Hit2 {
 			p := o.Add(dh.Scale(s))
 			z := p.Sub(c.P1).Dot(a)
 			if z >= 0 && z <= l {
-				res = append(res, Hit2{T: s / dn, P: p, N: nl.Scale(sg), Tang: math.Abs(den), Feat: math.Min(z, l-z)})
+				res = append(res, Hit2{T: s / dn, P: p, N: nl.Scale(sg), Tang: math.Abs(den), Feat: math.Min(z, l-z), Rad: math.Inf(1)})
 			}
 		}
 	}
@@ -296,7 +297,7 @@ func (s *Segs2) RayHits(o, d V2) []Hit2 {
 		l := g[0].Dist(g[1])
 		p := g[0].Add(g[1].Sub(g[0]).Scale(u))
 		res = append(res, Hit2{T: sd / dn, P: p, N: s.Norm[i], Tang: math.Abs(s.Norm[i].Dot(dh)),
-			Feat: math.Max(0, math.Min(u, 1-u)) * l, Seg: i})
+			Feat: math.Max(0, math.Min(u, 1-u)) * l, Rad: math.Inf(1), Seg: i})
 	}
 	return res
 }
@@ -389,6 +390,7 @@ func (s *Similarity2) RayHits(o, d V2) []Hit2 {
 		hs[i].P = s.apply(hs[i].P)
 		hs[i].N = s.lin(hs[i].N)
 		hs[i].Feat *= s.S
+		hs[i].Rad *= s.S
 	}
 	return hs
 }
